@@ -88,6 +88,8 @@ type aStep struct {
 	Names   []string            `json:"names"`
 	Descs   []vwDesc            `json:"descs"`
 	Cfg     map[string]interface{} `json:"cfg"`
+	N       int                 `json:"n"`
+	Partial bool                `json:"partial"`
 	Mid     []aStep             `json:"mid"`   // executed after Split bytes of the body have been read by the handler
 	Split   int                 `json:"split"`
 }
@@ -551,6 +553,22 @@ func (e *aEnv) step(st aStep, idx int) (res aRes) {
 		return e.doHTTP(st, idx)
 	case "defaults":
 		res.Cfg = verifDefaults(st.Cfg)
+	case "crashat":
+		// from now on the mutating filesystem calls of the directory store are counted; the N-th one (N > 0) kills the process
+		store.VerifFS(e.rootDir(), st.N, st.Partial)
+	case "fslog":
+		res.Names, res.Flag = store.VerifFSLog(e.rootDir())
+		res.N = len(res.Names)
+		if an := store.VerifFSAnomalies(e.rootDir()); len(an) > 0 {
+			res.Err = "untracked writes: " + strings.Join(an, " ")
+		}
+	case "reopen":
+		// the process is gone: nothing is closed or cleaned up; a new server opens the directory as it is
+		store.VerifFSDrop(e.rootDir())
+		if st.Conf != nil {
+			e.conf = *st.Conf
+		}
+		e.s = New(e.mkConf())
 	case "gc":
 		err := e.withRepo(st.Repo, func(r store.Repo) error { return store.VerifGC(r) })
 		if err != nil {
